@@ -9,6 +9,7 @@ package main
 import (
 	"fmt"
 	"os"
+	"strconv"
 	"sync"
 	"go/constant"
 	"go/token"
@@ -110,6 +111,7 @@ type Path struct {
 	funcsSeen map[*ssa.Function]int
 	locs map[string]*Cell
 	spec *specState
+	nondetMaps map[*MapObj]bool
 	initBase int
 	inTimeNow bool
 	decided map[string]bool
@@ -397,7 +399,12 @@ func (p *Path) failureFromModel(id, kind, detail string, model map[string]*Term)
 		f.Inputs = append(f.Inputs, ReplayInput{Name: in.Name, Kind: in.Kind, Value: constText(v)})
 	}
 	for _, o := range p.observes {
-		f.Observes[o.name] = constText(evalTerm(o.v, model, memo))
+		v := evalTerm(o.v, model, memo)
+		if v.isConst() && v.sort == SStr {
+			f.Observes[o.name] = strconv.Quote(v.sv)
+		} else {
+			f.Observes[o.name] = constText(v)
+		}
 	}
 	f.Findings = append([]string{}, p.findings...)
 	for c := range p.covers {
@@ -1862,7 +1869,7 @@ func (p *Path) lookup(fr *Frame, x *ssa.Lookup) Value {
 
 func (p *Path) mapOrder(m *MapObj) []*mapEntry {
 	ents := m.liveEntries()
-	if !p.mapOrderNondet || len(ents) < 2 {
+	if !(p.mapOrderNondet || p.nondetMaps[m]) || len(ents) < 2 {
 		return ents
 	}
 	if len(m.slots) > 8 {
